@@ -234,6 +234,8 @@ fn knobs_for(prop: Prop, sub: u64, tier: Tier, rng: &mut Rng) -> Knobs {
                 k.table.z = 1;
                 k.table.x = 1;
             }
+            // the protocol holds for every row that is yielded, also after error items
+            k.continue_pct = 15;
         }
         Prop::C03 => {
             k.n_out = (1, 4);
@@ -258,6 +260,7 @@ fn knobs_for(prop: Prop, sub: u64, tier: Tier, rng: &mut Rng) -> Knobs {
                 x: 2,
             };
             k.value_fault_pct = 20;
+            k.continue_pct = 10;
         }
         Prop::C04 => {
             k.probe_inputs = true;
@@ -332,6 +335,14 @@ fn knobs_for(prop: Prop, sub: u64, tier: Tier, rng: &mut Rng) -> Knobs {
             k.header_swarm = true;
             k.shuffle_signals = true;
             k.n_virtual = (0, 1);
+            if rng.chance(1, 8) {
+                // the `changed` invariant is about the vectors handed to the driver, whatever
+                // became of the rows
+                k.table.z = 1;
+                k.table.x = 1;
+                k.driver_error_pct = 50;
+                k.continue_pct = 100;
+            }
         }
         Prop::C10 => {
             k.shadow_outputs = true;
